@@ -81,11 +81,19 @@ def to_val(v):
 # ----------------------------------------------------------------------------
 # list / dict / set / option helpers on z3 terms
 
+def _is_mk(t):
+    return z3.is_app(t) and t.decl().kind() == z3.Z3_OP_DT_CONSTRUCTOR and t.num_args() > 0
+
+
 def L_len(ty, t):
+    if _is_mk(t):
+        return t.arg(0)                    # len(mk(n, a)) = n
     return sort_of(ty).len(t)
 
 
 def L_arr(ty, t):
+    if _is_mk(t):
+        return t.arg(1)
     return sort_of(ty).arr(t)
 
 
@@ -94,7 +102,13 @@ def L_mk(ty, ln, arr):
 
 
 def L_get(ty, t, i):
-    return z3.Select(L_arr(ty, t), i)
+    a = L_arr(ty, t)
+    # read over write on literal stores with numeral indices
+    while z3.is_app(a) and a.decl().kind() == z3.Z3_OP_STORE and z3.is_int_value(i) and z3.is_int_value(a.arg(1)):
+        if a.arg(1).as_long() == i.as_long():
+            return a.arg(2)
+        a = a.arg(0)
+    return z3.Select(a, i)
 
 
 def L_append(ty, t, x):
@@ -107,6 +121,26 @@ def L_has(ty, t, x, upto=None):
     j = z3.Int('j!has')
     n = L_len(ty, t) if upto is None else upto
     return z3.Exists([j], z3.And(j >= 0, j < n, L_get(ty, t, j) == x))
+
+
+_index_ufs = {}
+
+
+def L_index(ty, t, x):
+    """list.index(x) as a deterministic term (first position of x); meaningful when x occurs"""
+    from .types import _name
+    k = _name(ty)
+    if k not in _index_ufs:
+        _index_ufs[k] = z3.Function('list_index_' + k, sort_of(ty), sort_of(ty.elem), z3.IntSort())
+    return _index_ufs[k](t, x)
+
+
+def L_index_facts(ty, t, x):
+    """facts defining L_index(ty, t, x), valid when x occurs in the list"""
+    r = L_index(ty, t, x)
+    j = z3.Int('j!idx')
+    return [z3.And(r >= 0, r < L_len(ty, t), L_get(ty, t, r) == x),
+            z3.ForAll([j], z3.Implies(z3.And(j >= 0, j < r), L_get(ty, t, j) != x), patterns=[L_get(ty, t, j)])]
 
 
 def default_of(sort):
@@ -178,6 +212,9 @@ def O_val(ty, t):
 
 
 def R_get(ty, t, f):
+    if _is_mk(t):
+        names = [fn for fn, _ in ty.fields]
+        return t.arg(names.index(f))
     return getattr(sort_of(ty), f)(t)
 
 
@@ -191,6 +228,8 @@ def rec_field(v, f):
 
 
 def T_get(ty, t, i):
+    if _is_mk(t):
+        return t.arg(i)
     return getattr(sort_of(ty), 'f%d' % i)(t)
 
 
